@@ -1,9 +1,10 @@
 import Driver.Proto
 import TonicModel.Basic.ConnScript
+import TonicModel.Basic.ErrChain
 import TonicModel.Model.Reconnect
 import TonicModel.Spec.Reconnect
 namespace DriverC14
-open Proto ConnScript Reconnect
+open Proto ConnScript Reconnect ErrChain
 
 /-! token helpers -/
 
@@ -191,6 +192,97 @@ def parseTrace : List String → Option Trace
     | some (br, a), some evs => some { build := br, buildAttempts := a, evs := evs }
     | _, _ => none
 
+
+/-! cls / e2x: error chains -/
+
+def ioKind? (s : String) : Option IoKind := IoKind.all.find? (·.name = s)
+
+def node? (t : String) : Option Node :=
+  if t = "T" then some .timeoutExpired
+  else if t = "C" then some .connectError
+  else if t = "L" then some .tls
+  else if t = "X" then some .transport
+  else if t = "H2.-" then some (.h2 none)
+  else if t = "Y.00" then some (.hyper ⟨false, false⟩)
+  else if t = "Y.10" then some (.hyper ⟨true, false⟩)
+  else if t = "Y.01" then some (.hyper ⟨false, true⟩)
+  else if t = "Y.11" then some (.hyper ⟨true, true⟩)
+  else match natAfter "H2." t with
+    | some n => some (.h2 (some n))
+    | none =>
+      match stripPre "I." t with
+      | some k => (ioKind? k).map .io
+      | none =>
+        match natAfter "S" t with
+        | some c => some (.status c)
+        | none => (natAfter "W" t).map .custom
+
+def nodeTok : Node → String
+  | .status c => s!"S{c}"
+  | .timeoutExpired => "T"
+  | .connectError => "C"
+  | .hyper h => "Y." ++ b01 h.isTimeout ++ b01 h.isCanceled
+  | .h2 none => "H2.-"
+  | .h2 (some n) => s!"H2.{n}"
+  | .io k => "I." ++ k.name
+  | .tls => "L"
+  | .transport => "X"
+  | .custom i => s!"W{i}"
+
+def chainTok (c : List Node) : String :=
+  if c.isEmpty then "-" else String.intercalate ">" (c.map nodeTok)
+
+def chain? (s : String) : Option (List Node) :=
+  if s = "-" then some [] else parseAll node? (s.splitOn ">")
+
+/-- What the harness can build from a case: `W`, `I:` and `C` may wrap a further error, the
+others are leaves; a `C` needs something to wrap; `X` and `Y` only arise from real failures.
+`Yh` (case side only) is the error of a real hyper HTTP/2 handshake on a closed transport. -/
+def buildable : List Node → Bool
+  | [] => false
+  | [n] =>
+    (match n with
+     | .connectError => false
+     | .transport => false
+     | .hyper _ => false
+     | .status _ => true
+     | .timeoutExpired => true
+     | .h2 r => r.isSome
+     | .io _ => true
+     | .tls => true
+     | .custom _ => true)
+  | n :: m :: rest =>
+    (match n with
+     | .connectError => true
+     | .io _ => true
+     | .custom _ => true
+     | .status _ => false
+     | .timeoutExpired => false
+     | .hyper _ => false
+     | .h2 _ => false
+     | .tls => false
+     | .transport => false) && buildable (m :: rest)
+
+/-- The case-side chain: like `chain?`, plus a trailing `Yh`. -/
+def caseChain? (s : String) : Option (List Node) :=
+  let ts := s.splitOn ">"
+  match ts.getLast? with
+  | some "Yh" =>
+    let front := ts.dropLast
+    let tail : List Node := E2E.causeOf .deadPeer
+    if front.isEmpty then some tail
+    else match parseAll node? front with
+      | some pre => if buildable (pre ++ [.custom 0]) then some (pre ++ tail) else none
+      | none => none
+  | _ =>
+    match chain? s with
+    | some c => if buildable c then some c else none
+    | none => none
+
+/-- `code=<n>` / `walk=<chain>` pairs out of an `:`-separated token. -/
+def fieldOf (pre : String) (parts : List String) : Option String :=
+  (parts.filterMap (stripPre pre)).head?
+
 def handle (case obs : List String) : String × String :=
   match case with
   | ["unit", m, envS, opsS] =>
@@ -222,6 +314,53 @@ def handle (case obs : List String) : String × String :=
         | _, _ => "fail:unparsable-observation"
       (model, v)
     | _, _, _ => bad
+  | ["cls", chainS] =>
+    match caseChain? chainS with
+    | none => bad
+    | some chain =>
+      let model := s!"code={ErrClass.fromError chain} walk={chainTok chain}"
+      let v := match (fieldOf "code=" obs).bind (·.toNat?), (fieldOf "walk=" obs).bind chain? with
+        | some code, some walk => verdict (Spec.Reconnect.classClauses walk code)
+        | _, _ => "fail:unparsable-observation"
+      (model, v)
+  | ["e2x", m, tS, causeS] =>
+    match mode? m, caseChain? causeS with
+    | some isLazy, some cause =>
+      if tS ≠ "t" ∧ tS ≠ "n" then bad else
+      let full := ErrClass.attemptChain true true cause
+      let code := ErrClass.fromError full
+      let model :=
+        if isLazy then s!"build:ok:a0 c:err{code}:a1:walk={chainTok full} c:err{code}:a2:walk={chainTok full}"
+        else s!"build:err{code}:a1:walk={chainTok full}"
+      -- the observation as a trace of the all-attempts-fail script, plus the class of each error
+      let parseErr (t : String) : Option (Nat × Nat × List Node) :=
+        let parts := t.splitOn ":"
+        match (fieldOf "err" parts).bind (·.toNat?), (fieldOf "a" parts).bind (·.toNat?),
+              (fieldOf "walk=" parts).bind chain? with
+        | some c, some a, some w => some (c, a, w)
+        | _, _, _ => none
+      let v := match obs with
+        | [] => "fail:unparsable-observation"
+        | b :: evs =>
+          let errs := (if isLazy then evs else [b]).map parseErr
+          if errs.any (·.isNone) then
+            -- not an error where one is due: let the script oracle name the clause
+            match parseTrace ((b :: evs).map fun t => String.intercalate ":" ((t.splitOn ":").filter fun p => (stripPre "walk=" p).isNone)) with
+            | some ot => verdict (Spec.Reconnect.clauses isLazy [] [.call, .call] ot ++ [("error-expected", false)])
+            | none => "fail:unparsable-observation"
+          else
+            let es := errs.filterMap id
+            let trace : Trace :=
+              if isLazy then
+                { build := .ok, buildAttempts := 0, evs := es.map fun (c, a, _) => Ev.call (.error c none) a }
+              else
+                match es with
+                | (c, a, _) :: _ => { build := .error c none, buildAttempts := a, evs := [] }
+                | [] => { build := .hang, buildAttempts := 0, evs := [] }
+            verdict (Spec.Reconnect.clauses isLazy [] [.call, .call] trace ++
+              (es.map fun (c, _, w) => Spec.Reconnect.classClauses w c).flatten)
+      (model, v)
+    | _, _ => bad
   | [kind, m, outsS, opsS] =>
     if kind ≠ "e2e" ∧ kind ≠ "e2n" then bad else
     match mode? m, parseAll (fun s => (s.toList.head?).bind outcome?) ((chars outsS).map (String.singleton ·)),
